@@ -22,8 +22,11 @@
                 FriProver::build_layers / set_remainder)
      verifier = verifier/src/lib.rs verify / perform_verification (+ fri/src/verifier/mod.rs FriVerifier::new)
 
-   Scope: AIRs without a Lagrange-kernel auxiliary column (no GKR sub-protocol: its draws are defined by
-   user code on both sides).  No proofs in this file.  *)
+   Lagrange-kernel auxiliary column: the GKR sub-protocol is user code on both sides (Prover::generate_gkr_proof,
+   GkrVerifier::verify); the model takes the NUMBER of elements it draws from the coin as a shape parameter and fixes
+   its position (after the main-trace commitment, before the ordinary auxiliary randomness).  The GKR proof bytes
+   themselves (proof.gkr_proof) are not absorbed by library code; absorbing them is up to the user's GKR code and is
+   not modelled.  No proofs in this file.  *)
 From Coq Require Import List Arith Bool ZArith.
 From VBase Require Import MachInt.
 Import ListNotations.
@@ -78,6 +81,7 @@ Fixpoint hist (t : term) : list sym :=
 
 (* Challenges (the uses of coin outputs). *)
 Inductive chal : Type :=
+| GkrRand (j : nat)              (* j-th element drawn by the GKR step (Lagrange-kernel randomness) *)
 | AuxRand (j : nat)              (* j-th random element for building the auxiliary trace segment *)
 | CompositionCoeff (j : nat)     (* j-th constraint composition coefficient (transition, then boundary) *)
 | OodPoint                       (* z *)
@@ -90,6 +94,7 @@ Inductive chal : Type :=
 
 Definition chal_eqb (a b : chal) : bool :=
   match a, b with
+  | GkrRand i, GkrRand j => Nat.eqb i j
   | AuxRand i, AuxRand j => Nat.eqb i j
   | CompositionCoeff i, CompositionCoeff j => Nat.eqb i j
   | OodPoint, OodPoint => true
@@ -125,15 +130,24 @@ Record shape : Type := mkShape {
   sh_ext_deg : nat;          (* 1 / 2 / 3: E::EXTENSION_DEGREE for options.field_extension() *)
   sh_fri_layers : nat;       (* options.to_fri_options().num_fri_layers(lde_domain_size) *)
   sh_grinding : nat;         (* options.grinding_factor() (0 = no proof of work demanded) *)
-  sh_queries : nat           (* options.num_queries() *)
+  sh_queries : nat;          (* options.num_queries() *)
+  sh_lagrange : option (nat * nat)
+                             (* context.has_lagrange_kernel_aux_column(): Some (g, l) with g = number of elements the GKR
+                                step draws from the coin, l = trace_len().ilog2() *)
 }.
 
 Definition multi_segment (s : shape) : bool := negb (Nat.eqb (sh_aux_width s) 0).   (* TraceInfo::is_multi_segment *)
 Definition num_trace_segments (s : shape) : nat := if multi_segment s then 2 else 1.
-(* Air::get_constraint_composition_coefficients: num_transition_constraints() + num_assertions() draws *)
-Definition n_comp (s : shape) : nat := (sh_trans_main s + sh_trans_aux s) + (sh_assert_main s + sh_assert_aux s).
-(* Air::get_deep_composition_coefficients: trace_info().width() + num_constraint_composition_columns() draws *)
-Definition n_deep (s : shape) : nat := (sh_main_width s + sh_aux_width s) + sh_comp_cols s.
+(* Air::get_constraint_composition_coefficients: num_transition_constraints() + num_assertions() draws
+   (+ trace_len().ilog2() transition and 1 boundary coefficient for the Lagrange kernel column) *)
+Definition n_gkr (s : shape) : nat := match sh_lagrange s with Some (g, _) => g | None => 0 end.
+Definition n_comp (s : shape) : nat :=
+  (sh_trans_main s + sh_trans_aux s) + (sh_assert_main s + sh_assert_aux s)
+  + match sh_lagrange s with Some (_, l) => l + 1 | None => 0 end.
+(* Air::get_deep_composition_coefficients: trace_info().width() + num_constraint_composition_columns() draws
+   (+ 1 for the Lagrange kernel column) *)
+Definition n_deep (s : shape) : nat :=
+  (sh_main_width s + sh_aux_width s) + sh_comp_cols s + match sh_lagrange s with Some _ => 1 | None => 0 end.
 
 Definition seed_syms : list sym := [CtxElems; PubInputs].
 
@@ -142,6 +156,9 @@ Definition draw1 (deg : nat) (k : nat) (c : chal) : step := (EvDraw k deg, Some 
 (* `for _ in 0..n { v.push(public_coin.draw()?) }` starting with the counter at 0 *)
 Definition draws (deg : nat) (lab : nat -> chal) (n : nat) : list step :=
   map (fun j => draw1 deg j (lab j)) (seq 0 n).
+(* the same loop when `from` draws have already been made since the last reseed *)
+Definition draws_at (from : nat) (deg : nat) (lab : nat -> chal) (n : nat) : list step :=
+  map (fun j => draw1 deg (from + j) (lab j)) (seq 0 n).
 
 (* ------------------------------------------------------------------------------------------------
    The prover: Prover::generate_proof. *)
@@ -160,8 +177,13 @@ Definition prover (s : shape) : list step :=
   [(EvNew seed_syms, None)]
   (* 1: commit_to_main_trace_segment -> channel.commit_trace(main_trace_root) *)
   ++ [reseed (TraceCommitment 0)]
-  (*    if air.trace_info().is_multi_segment(): get_aux_rand_elements; build_aux_trace; channel.commit_trace(aux root) *)
-  ++ (if multi_segment s then draws e AuxRand (sh_aux_rands s) ++ [reseed (TraceCommitment 1)] else [])
+  (*    if air.trace_info().is_multi_segment():
+          if has_lagrange_kernel_aux_column(): generate_gkr_proof(&trace, channel.public_coin())   -- draws g elements
+          get_aux_rand_elements; build_aux_trace; channel.commit_trace(aux root) *)
+  ++ (if multi_segment s
+      then (match sh_lagrange s with Some (g, _) => draws e GkrRand g | None => [] end)
+           ++ draws_at (n_gkr s) e AuxRand (sh_aux_rands s) ++ [reseed (TraceCommitment 1)]
+      else [])
   (* 2: channel.get_constraint_composition_coeffs() *)
   ++ draws e CompositionCoeff (n_comp s)
   (* 3: commit_to_constraint_evaluations -> channel.commit_constraints(root) *)
@@ -201,8 +223,16 @@ Definition verifier (s : shape) : list step :=
   [(EvNew seed_syms, None)]
   (* 1: public_coin.reseed(trace_commitments[MAIN_TRACE_IDX]) *)
   ++ [reseed (TraceCommitment 0)]
-  (*    if is_multi_segment: rand_elements = air.get_aux_rand_elements(coin); coin.reseed(trace_commitments[AUX_TRACE_IDX]) *)
-  ++ (if multi_segment s then draws e AuxRand (sh_aux_rands s) ++ [reseed (TraceCommitment 1)] else [])
+  (*    if is_multi_segment:
+          if has_lagrange_kernel_aux_column: gkr verifier .verify(gkr_proof, coin); rand_elements = get_aux_rand_elements(coin);
+                                             coin.reseed(trace_commitments[AUX_TRACE_IDX])
+          else:                              rand_elements = get_aux_rand_elements(coin); coin.reseed(trace_commitments[AUX_TRACE_IDX]) *)
+  ++ (if multi_segment s
+      then match sh_lagrange s with
+           | Some (g, _) => draws e GkrRand g ++ draws_at g e AuxRand (sh_aux_rands s) ++ [reseed (TraceCommitment 1)]
+           | None => draws e AuxRand (sh_aux_rands s) ++ [reseed (TraceCommitment 1)]
+           end
+      else [])
   (*    constraint_coeffs = air.get_constraint_composition_coefficients(coin) *)
   ++ draws e CompositionCoeff (n_comp s)
   (* 2: reseed(constraint_commitment); z = draw() *)
@@ -295,6 +325,7 @@ Definition upto_deep (s : shape) : list sym :=
 
 Definition msgs_before (s : shape) (c : chal) : list sym :=
   match c with
+  | GkrRand _ => seed_syms ++ [TraceCommitment 0]
   | AuxRand _ => seed_syms ++ [TraceCommitment 0]
   | CompositionCoeff _ => seed_syms ++ trace_msgs s
   | OodPoint => seed_syms ++ trace_msgs s ++ [ConstraintCommitment]
@@ -307,7 +338,7 @@ Definition msgs_before (s : shape) (c : chal) : list sym :=
 
 (* the challenges each side must derive, in order *)
 Definition challenges (verifier_side : bool) (s : shape) : list chal :=
-  (if multi_segment s then map AuxRand (seq 0 (sh_aux_rands s)) else [])
+  (if multi_segment s then map GkrRand (seq 0 (n_gkr s)) ++ map AuxRand (seq 0 (sh_aux_rands s)) else [])
   ++ map CompositionCoeff (seq 0 (n_comp s))
   ++ [OodPoint]
   ++ map DeepCoeff (seq 0 (n_deep s))
@@ -358,6 +389,26 @@ Definition log_ok (verifier_side : bool) (s : shape) (l : list event) : bool :=
   && counters_ok 0 l
   && chals_eqb (map fst (run cs_init ls)) (challenges verifier_side s)
   && depends_ok s ls.
+
+(* Observed USES of drawn values (the harness' GKR step and AIR report which values they were handed): an observed use
+   must agree with the purpose the protocol gives to that draw. *)
+Inductive use : Type := UseGkr | UseAux | UseUnobserved.
+
+Fixpoint uses_ok (ls : list step) (us : list use) : bool :=
+  match ls, us with
+  | [], [] => true
+  | (_, lab) :: r, u :: ur =>
+      match u, lab with
+      | UseUnobserved, _ => true
+      | UseGkr, Some (GkrRand _) => true
+      | UseAux, Some (AuxRand _) => true
+      | _, _ => false
+      end && uses_ok r ur
+  | _, _ => false
+  end.
+
+Definition log_ok_uses (verifier_side : bool) (s : shape) (l : list event) (us : list use) : bool :=
+  log_ok verifier_side s l && uses_ok (label (drawn_challenges verifier_side s) l) us.
 
 (* ------------------------------------------------------------------------------------------------
    Where each absorbed symbol lives in the serialized proof (air/src/proof/mod.rs Proof). *)
